@@ -18,6 +18,9 @@ pub enum Step {
     Ask { target: usize, timeout: Option<u64>, plan: Vec<Step> },
     /// `j(a2(..),t3:15(..))`: the asks inside are awaited concurrently (join_all) by one hook
     Join(Vec<Step>),
+    /// `J2(..)`: ask_join - peer 2's handler runs the plan, then returns the JoinHandle of a task that takes
+    /// 25 ms (virtual); the asking hook awaits that task
+    AskJoin { target: usize, plan: Vec<Step> },
 }
 
 pub fn parse_plan(s: &str) -> Option<Vec<Step>> {
@@ -34,6 +37,25 @@ pub fn parse_plan(s: &str) -> Option<Vec<Step>> {
                     *i += 1
                 }
                 ',' | '-' => *i += 1,
+                'J' => {
+                    *i += 1;
+                    let mut num = String::new();
+                    while *i < cs.len() && cs[*i].is_ascii_digit() {
+                        num.push(cs[*i]);
+                        *i += 1;
+                    }
+                    let target: usize = num.parse().ok()?;
+                    if cs.get(*i) != Some(&'(') {
+                        return None;
+                    }
+                    *i += 1;
+                    let plan = go(cs, i)?;
+                    if cs.get(*i) != Some(&')') {
+                        return None;
+                    }
+                    *i += 1;
+                    out.push(Step::AskJoin { target, plan });
+                }
                 'j' => {
                     *i += 1;
                     if cs.get(*i) != Some(&'(') {
@@ -102,6 +124,8 @@ pub struct Shared {
     pub ids: Mutex<Vec<u64>>,                       // real actor id of each peer
     pub gates: Vec<Semaphore>,
     pub waiting: Vec<AtomicBool>,
+    /// what each peer's on_stop does (asks made from on_stop take part in cycles like any other)
+    pub stop_plans: Vec<Vec<Step>>,
 }
 
 impl Shared {
@@ -123,6 +147,11 @@ impl Actor for Peer {
     }
     async fn on_stop(&mut self, _: &ActorWeak<Self>, killed: bool) -> Result<(), String> {
         self.sh.log(format!("N stop {} {killed}", self.me));
+        let plan = self.sh.stop_plans.get(self.me - 1).cloned().unwrap_or_default();
+        if !plan.is_empty() {
+            run_plan(&self.sh, self.me, plan, 0).await;
+            self.sh.log(format!("N stopDone {}", self.me));
+        }
         Ok(())
     }
 }
@@ -164,13 +193,10 @@ async fn do_ask(sh: &Arc<Shared>, me: usize, target: usize, timeout: Option<u64>
     sh.log(format!("N askRet {me} {mid} {txt}"));
 }
 
-impl Message<Run> for Peer {
-    type Reply = u64;
-    async fn handle(&mut self, m: Run, _: &ActorRef<Self>) -> u64 {
-        let sh = self.sh.clone();
-        let me = self.me;
-        sh.log(format!("N hStart {me} {}", m.mid));
-        for st in m.plan {
+/// runs a plan inside a hook of peer `me`; returns false when the plan panics (after logging)
+fn run_plan<'a>(sh: &'a Arc<Shared>, me: usize, plan: Vec<Step>, mid: u64) -> futures::future::BoxFuture<'a, ()> {
+    Box::pin(async move {
+        for st in plan {
             match st {
                 Step::Gate => {
                     sh.waiting[me - 1].store(true, SeqCst);
@@ -179,15 +205,31 @@ impl Message<Run> for Peer {
                     p.forget();
                 }
                 Step::Panic => {
-                    sh.log(format!("N hEnd {me} {} panic", m.mid));
-                    panic!("scripted panic in peer handler");
+                    sh.log(format!("N hEnd {me} {mid} panic"));
+                    panic!("scripted panic in peer hook");
                 }
-                Step::Ask { target, timeout, plan } => do_ask(&sh, me, target, timeout, plan).await,
+                Step::Ask { target, timeout, plan } => do_ask(sh, me, target, timeout, plan).await,
+                Step::AskJoin { target, plan } => {
+                    let mid2 = sh.next_mid.fetch_add(1, SeqCst);
+                    let r = sh.peers.lock().unwrap().get(target - 1).cloned().flatten();
+                    let Some(r) = r else { continue };
+                    sh.log(format!("N askStart {me} {target} {mid2}"));
+                    let res = r.ask_join(RunJ { mid: mid2, plan }).await;
+                    let txt = match &res {
+                        Ok(v) if *v == mid2 => "ok",
+                        Ok(_) => "wrongreply",
+                        Err(rsactor::Error::Receive { .. }) => "receive",
+                        Err(rsactor::Error::Send { .. }) => "send",
+                        Err(rsactor::Error::Join { .. }) => "join",
+                        Err(_) => "other",
+                    };
+                    sh.log(format!("N askRet {me} {mid2} {txt}"));
+                }
                 Step::Join(items) => {
                     let futs: Vec<_> = items
                         .into_iter()
                         .filter_map(|it| match it {
-                            Step::Ask { target, timeout, plan } => Some(do_ask(&sh, me, target, timeout, plan)),
+                            Step::Ask { target, timeout, plan } => Some(do_ask(sh, me, target, timeout, plan)),
                             _ => None,
                         })
                         .collect();
@@ -195,8 +237,40 @@ impl Message<Run> for Peer {
                 }
             }
         }
+    })
+}
+
+impl Message<Run> for Peer {
+    type Reply = u64;
+    async fn handle(&mut self, m: Run, _: &ActorRef<Self>) -> u64 {
+        let sh = self.sh.clone();
+        let me = self.me;
+        sh.log(format!("N hStart {me} {}", m.mid));
+        run_plan(&sh, me, m.plan, m.mid).await;
         sh.log(format!("N hEnd {me} {} ok", m.mid));
         m.mid
+    }
+}
+
+/// like `Run`, but the reply is the JoinHandle of a task that finishes 25 ms (virtual) later
+pub struct RunJ {
+    pub mid: u64,
+    pub plan: Vec<Step>,
+}
+
+impl Message<RunJ> for Peer {
+    type Reply = tokio::task::JoinHandle<u64>;
+    async fn handle(&mut self, m: RunJ, _: &ActorRef<Self>) -> tokio::task::JoinHandle<u64> {
+        let sh = self.sh.clone();
+        let me = self.me;
+        sh.log(format!("N hStart {me} {}", m.mid));
+        run_plan(&sh, me, m.plan, m.mid).await;
+        sh.log(format!("N hEnd {me} {} ok", m.mid));
+        let mid = m.mid;
+        tokio::spawn(async move {
+            tokio::time::sleep(Duration::from_millis(25)).await;
+            mid
+        })
     }
 }
 
@@ -260,6 +334,14 @@ pub fn run_with<F: FnMut(usize, &[bool]) -> Option<String>>(mut next_line: F) ->
                         ids: Mutex::new(vec![]),
                         gates: (0..n).map(|_| Semaphore::new(0)).collect(),
                         waiting: (0..n).map(|_| AtomicBool::new(false)).collect(),
+                        stop_plans: (1..=n)
+                            .map(|k| {
+                                ws.iter()
+                                    .find_map(|w| w.strip_prefix(&format!("stop{k}=")))
+                                    .and_then(parse_plan)
+                                    .unwrap_or_default()
+                            })
+                            .collect(),
                     });
                     let cap: Option<usize> = ws.iter().find_map(|w| w.strip_prefix("cap=")).and_then(|x| x.parse().ok()).filter(|c| *c > 0);
                     for i in 1..=n {
@@ -480,10 +562,20 @@ impl NetGen {
                 self.emitted = 1;
                 let n = 2 + self.rng.below(4);
                 // a third of the worlds have tiny mailboxes: asks park in the send
-                return Some(match self.rng.below(3) {
+                let mut line = match self.rng.below(3) {
                     0 => format!("spawn {n} cap={}", 1 + self.rng.below(2)),
                     _ => format!("spawn {n}"),
-                });
+                };
+                // a third of the worlds have a peer whose on_stop asks somebody
+                if !self.acyclic && self.rng.chance(1, 3) {
+                    let k = 1 + self.rng.below(n);
+                    let mut t = 1 + self.rng.below(n);
+                    if t == k {
+                        t = if k == n { 1 } else { k + 1 };
+                    }
+                    line.push_str(&format!(" stop{k}=a{t}(-)"));
+                }
+                return Some(line);
             }
             return None;
         }
@@ -503,6 +595,25 @@ impl NetGen {
             return None;
         }
         let waiting_ids: Vec<usize> = waiting.iter().enumerate().filter(|(_, w)| **w).map(|(i, _)| i + 1).collect();
+        // the callee dies while an ask to it is queued, and its on_stop asks back: `ask A g` keeps A busy, `ask B aA(-)`
+        // queues B's ask behind it, then A is killed and released
+        if n >= 2 && !self.acyclic && self.rng.chance(1, 14) {
+            let a = 1 + self.rng.below(n as u64) as usize;
+            return Some(match self.rng.below(3) {
+                0 => format!("ask {a} g"),
+                1 => format!("kill {a}"),
+                _ => format!("ask {} a{a}(-)", if a == n { 1 } else { a + 1 }),
+            });
+        }
+        // ask_join: the asking hook waits for a task of the callee after the reply; the callee is free meanwhile
+        if n >= 2 && self.rng.chance(1, 12) {
+            let a = 1 + self.rng.below(n as u64) as usize;
+            if let Some(b) = self.target(n, a) {
+                if b != a {
+                    return Some(format!("ask {a} J{b}(-)"));
+                }
+            }
+        }
         // retry after a timeout: a hook's timed ask to a gated peer is abandoned, the same hook asks the same
         // peer again, and that peer's later messages may ask back (stale replies meet newer edges)
         if n >= 2 && !self.acyclic && self.rng.chance(1, 10) {
